@@ -509,7 +509,7 @@ def random_adv(rnd, ent):
 
 def random_observations(chk, rnd, real, stats):
     """Random deeper statements x random pools of 1..3 feeds, observed on the real code."""
-    n_stmts, n_pools = (60, 12) if chk.quick else (500, 24)
+    n_stmts, n_pools = (60, 12) if chk.quick else (300, 20)
     ents, seen, tries = [], set(), 0
     while len(ents) < n_stmts and tries < 50 * n_stmts:
         tries += 1
@@ -625,7 +625,7 @@ def main(chk):
     stmts, skeletons = family(chk, rnd)
     ents = [entry(s) for s in stmts]
     path = common.write_json({'stmts': ents, 'nobs': 0}, 'c09-pairs.json')
-    reps = representatives(stmts, 20 if chk.quick else 24)
+    reps = representatives(stmts, 20 if chk.quick else 12)
     rep_ents = [ents[i] for i in reps]
     reps_path = common.write_json({'stmts': rep_ents, 'nobs': 0}, 'c09-reps.json')
     expected = pair_expectations(chk, tmp, path, chk.tier)
